@@ -273,6 +273,12 @@ class ListWithAdjustments(object):
       assert self.count_range(begin, end) > 0
       min_key, max_key = self._find_sparse_enough_range(begin, end)
       self._adjust_range(min_key, max_key)
+      # The neighbours may have been relabeled along with the insertions: check against the keys
+      # they have now (their old keys may coincide with new keys of other elements).
+      if index > 0:
+        begin = self._adj_get_key(index - 1)
+      if index < len(self._orig_list):
+        end = self._adj_get_key(index)
       assert is_valid_range(begin, self._insertions.irange(begin, end), end)
 
   def _find_sparse_enough_range(self, begin, end):
